@@ -642,6 +642,10 @@ class InterpolatableFunction(ABC):
         if self.hasInterpolation():
             appendPointCount = int(0.2 * self._initialInterpolationPointCount)
         else:
+            if evaluatedPointMin == evaluatedPointMax:
+                # A single distinct point cannot seed an interpolation table
+                # (it would have zero width); wait for more evaluations.
+                return
             appendPointCount = int(self._initialInterpolationPointCount / 2)
 
         self.extendInterpolationTable(
